@@ -939,3 +939,58 @@ def r7_5_independent_clamps(ck, P):
                     ck.violation(R, f.name, 'clamp of %s depends on the other axis (%s)' % (fld, w), '%s clamps %s only on paths decided by a range test of %s: when both axes overflow one of them keeps its wrapped value and the box is malformed' % (f.name, fld, '/'.join(bad[1])), x.loc())
                 else:
                     ck.ok(R, where)
+
+
+def r6_5_touching_merges(ck, P):
+    """canonical form: rectangles of one band never touch"""
+    R = ck.rule('C06-R5', 'every merge-or-append decision of the band code compares the new rectangle\'s x1 with the current right edge so that equality merges (x1 <= x2): touching rectangles of a band are coalesced, which canonical form and equal() rely on', floor=8)
+    for u in units(P):
+        for f in u.functions.values():
+            for b in f.blocks:
+                t = b.term
+                if t.op != 'br' or not t.a:
+                    continue
+                c = f.v(t.a[0])
+                if c is None or c.op != 'icmp' or c.d['p'] not in ('sle', 'slt', 'sgt', 'sge'):
+                    continue
+
+                def fld(o, seen=None):
+                    seen = seen if seen is not None else set()
+                    if o[0] != 'v' or o[1] in seen:
+                        return set()
+                    seen.add(o[1])
+                    s_ = {a[1].split('.')[-1] for a in f.atoms(o) if a[0] == 'field' and a[1].split('.')[-1] in ('x1', 'x2', 'y1', 'y2')}
+                    y = f.v(o)
+                    if not s_ and y is not None and y.dv in ('x1', 'x2'):
+                        s_ = {y.dv}
+                    if not s_ and y is not None and y.op == 'phi' and len(y.a) < 6:
+                        s_ = {q for a in y.a for q in fld(a, seen)}
+                    return s_
+                l, r = fld(c.a[0]), fld(c.a[1])
+                if not ((l == {'x1'} and r == {'x2'}) or (l == {'x2'} and r == {'x1'})):
+                    continue
+                # the branch that extends the right edge: contains a comparison of two x2 values and no call
+                def is_merge(bid, depth=0):
+                    blk = f.blocks[bid]
+                    if any(y.op == 'call' and not (y.callee or '').startswith('llvm.dbg') for y in blk.insts):
+                        return False
+                    for y in blk.insts:
+                        if y.op == 'icmp':
+                            a_, b_ = (fld(o) for o in y.a)
+                            if a_ == {'x2'} and b_ == {'x2'}:
+                                return True
+                    return False
+                s_true, s_false = t.d['succ']
+                mt, mf = is_merge(s_true), is_merge(s_false)
+                if mt == mf:
+                    continue                     # not a merge-or-append decision
+                pred = c.d['p']
+                if l == {'x2'}:                  # x2 OP x1  ->  x1 OP' x2
+                    pred = {'sle': 'sge', 'slt': 'sgt', 'sgt': 'slt', 'sge': 'sle'}[pred]
+                eq_goes_true = pred in ('sle', 'sge')
+                ck.saw(f)
+                where = '%s (%s): merge test at %s' % (f.name, _w(u), c.loc())
+                if eq_goes_true == mt:
+                    ck.ok(R, where, 'x1 == x2 merges')
+                else:
+                    ck.violation(R, f.name, 'merge test strict on touching rectangles (%s)' % _w(u), '%s appends a rectangle whose x1 equals the current right edge instead of merging it: the band then holds two touching rectangles, a representation no other operation produces, and equal() fails against the same point set' % f.name, c.loc())
